@@ -266,7 +266,9 @@ func ScopeErrors(c *cfg.Config, g *Graph) [][2]string {
 		}
 		var ts []string
 		for t := range g.Reach(s.Name) {
-			if declaredScope(c.Service(t)) == "contextual" {
+			// a todo placeholder keeps the scope it is declared with as far as this rule goes (it is a declared-contextual
+			// service; whatever replaces it at run time has to honour that)
+			if ts2 := c.Service(t); ts2 != nil && ts2.Scope != nil && *ts2.Scope == "contextual" {
 				ts = append(ts, t)
 			}
 		}
